@@ -245,7 +245,7 @@ PROPS = {
         "evaluations": ["pairs", "ij.to_calls", "ij.from_calls", "ij.extreme_calls"],
         "rule": "cases: ordered (origin, cell) pairs; (origin, cell) and (origin, i, j) IJ conversions. Evidence counts pairs; the distinct set holds origins (whole-resolution sweeps: each origin against every cell of the "
                 "resolution; ball sweeps: each origin against its BFS ball), non-trivial = every origin; distinct by origin (and radius).",
-        "require": {"pairs": {"quick": 10000000, "thorough": 100000000}, "pairs.success": 1000000, "pairs.failed": 100000, "pairs.under_directed_rounding": 20000, "origins.ball_with_pentagon": 500, "ij.roundtrips": 100000, "ij.roundtrips_rev": 100000,
+        "require": {"pairs": {"quick": 10000000, "thorough": 100000000}, "pairs.structured_far": 1000, "pairs.geometric_lower_bound_judged": 1000, "pairs.success": 1000000, "pairs.failed": 100000, "pairs.under_directed_rounding": 20000, "origins.ball_with_pentagon": 500, "ij.roundtrips": 100000, "ij.roundtrips_rev": 100000,
                     "ij.neighbour_steps": 100000, "ij.extreme_rejected": 100, "mismatch.calls": 100},
         "exhaustive": True,
         "exhaustive_note": "all ordered pairs at res 0-1 (and res 2 in the thorough tier); balls elsewhere",
@@ -393,7 +393,7 @@ PROPS = {
                 "distinct by hash of (call description, index, mode).",
         "require": {"calls": 1000, "faulted_runs": 1500, "calls.compactCells": 50, "calls.gridDisk": 100, "calls.gridDiskDistances": 100, "calls.areNeighborCells": 300, "calls.polygonToCells": 50,
                     "calls.polygonToCellsExperimental": 100, "calls.maxPolygonToCellsSizeExperimental": 100, "errorpath.compactCells": 20, "errorpath.polygonToCellsExperimental": 30, "errorpath.gridDisk": 100, "errorpath.gridDiskDistances": 100, "errorpath.areNeighborCells": 500,
-                    "errorpath.maxPolygonToCellsSizeExperimental": 15, "errorpath.polygonToCells": 20, "hostile.cases": 300, "badpoly.cases": 30},
+                    "errorpath.maxPolygonToCellsSizeExperimental": 15, "errorpath.polygonToCells": 20, "hostile.cases": 300, "badpoly.cases": 30, "compaction.multi_round_sets": 10},
         "assumptions": ["every library allocation goes through H3_MEMORY (the prefix mechanism)", "the default-allocator copy is the same source tree compiled without the prefix"],
     },
     "C18": {
@@ -414,7 +414,7 @@ PROPS = {
         "rule": "a case is one program (seeded sequence of 150-2000 steps, ~25 API calls each) run under one monitor. Non-trivial = every program; distinct by (seed, thread count). api_calls counts library calls; overlap.pair.XX_YY "
                 "counts observations of API group XX starting while another thread was inside group YY.",
         "require": {"programs": 200, "api_calls": 1000000, "wtrap.protected_runs": 4, "ledger.api_returns_checked": 100000, "runs.threads_16": 4, "runs.threads_02": 4, "overlap.observations": 100000,
-                    "calls.polygonToCells": 1000, "calls.cellsToLinkedMultiPolygon": 500, "calls.compactCells": 5000},
+                    "calls.polygonToCells": 1000, "calls.cellsToLinkedMultiPolygon": 500, "calls.compactCells": 5000, "fp_environment.api_returns_checked": 10000},
         "assumptions": ["memory obtained from libc (malloc) is the only other writable memory the library can reach; the ledger covers it", "TSan reports nothing it cannot see: libc internals are uninstrumented"],
     },
     "C19": {
